@@ -205,7 +205,10 @@ func runXferCase(e *Env, lp *vk.ListenerPool, c xferCase, keep bool) xferOutcome
 		// the same relative paths and sizes below several roots named "x", with
 		// different bytes; parents chosen so that the argument order differs
 		// from (or equals) the lexical order of the absolute paths
-		parents := map[string][]string{"dup2-unsorted": {"p2", "p1"}, "dup3-unsorted": {"p2", "p0", "p1"}, "dup2-sorted": {"p1", "p2"}}[c.Selection]
+		// "-distinct": the roots hold different trees (other names and sizes), not
+		// the same paths with other bytes
+		distinct := strings.HasSuffix(c.Selection, "-distinct")
+		parents := map[string][]string{"dup2-unsorted": {"p2", "p1"}, "dup3-unsorted": {"p2", "p0", "p1"}, "dup2-sorted": {"p1", "p2"}}[strings.TrimSuffix(c.Selection, "-distinct")]
 		rootPrefix := ""
 		if !cfg.NoRootDir {
 			rootPrefix = "selection/"
@@ -214,6 +217,9 @@ func runXferCase(e *Env, lp *vk.ListenerPool, c xferCase, keep bool) xferOutcome
 		for k, par := range parents {
 			tk := tree
 			tk.Seed = tree.Seed ^ (uint64(k+1) * 0x9e3779b97f4a7c15)
+			if distinct && k > 0 {
+				tk = vk.GenTree(tk.Seed, c.Shape, c.Names, int64(c.Cfg.ChunkSize), maxBytesFor(c.Cfg.ChunkSize))
+			}
 			root := filepath.Join(base, par, "x")
 			if err := tk.Materialize(root); err != nil {
 				out.Err = "materialize: " + err.Error()
